@@ -493,6 +493,15 @@ func (b *builder) importItem(k kind, prefix []string) {
 		text += " " + b.vary("as") + " " + alias
 		b.feats["import:alias"]++
 	}
+	if k != kClass && b.chance(1, 10, "typewordalias") {
+		// "use function A\\b as string;" — only class imports may not take a special class name as alias
+		alias = b.vary(typeWords[b.intn(len(typeWords), "typeword")])
+		if k == kConst {
+			alias = b.vary(b.pick("constword", "void", "iterable"))
+		}
+		text = strings.Join(segs, "\\") + " " + b.vary("as") + " " + alias
+		b.feats["import:type-word-alias"]++
+	}
 	if b.allowDup && b.chance(1, 2, "dupalias") {
 		// repeat an alias of this kind in another letter case (see DrawSource)
 		var have []string
